@@ -427,6 +427,10 @@ class UpdateCollection(Message):
                 return
 
             yield self._message(UpdateCollection.prefix(withdraws) + UpdateCollection.prefix(attr) + announced)
+            if packed_size > msg_size:
+                # the pending NLRI does not fit in an empty message either: no message rather than an oversized one
+                log.critical(lazymsg('update.pack.error reason=attributes_too_large'), 'parser')
+                return
             announced = bytes(packed)
             announced_size = packed_size
             withdraws = b''
@@ -450,6 +454,10 @@ class UpdateCollection(Message):
                     yield self._message(UpdateCollection.prefix(withdraws) + UpdateCollection.prefix(attr) + announced)
                 else:
                     yield self._message(UpdateCollection.prefix(withdraws) + UpdateCollection.prefix(b'') + announced)
+                if packed_size > msg_size:
+                    # the pending NLRI does not fit in an empty message either: no message rather than an oversized one
+                    log.critical(lazymsg('update.pack.error reason=attributes_too_large'), 'parser')
+                    return
                 withdraws = bytes(packed)
                 withdraws_size = packed_size
                 announced = b''
